@@ -6,8 +6,10 @@ import (
 	"fmt"
 	"github.com/pkg/errors"
 	"io"
+	"path"
 	"runtime"
 	"runtime/debug"
+	"strings"
 
 	"github.com/itchio/headway/state"
 	"github.com/itchio/lake"
@@ -66,7 +68,11 @@ type DiffSeams struct {
 	Ctx         context.Context
 	EOFWith     bool // new-build pool readers deliver io.EOF together with the last bytes
 	SigViaFile  bool // the old build's signature is read back from a signature file (build-chain workflow)
-	Twice       bool // WritePatch is called a second time on the same DiffContext (another destination); the result reported is the second one's
+	// ZipLikeContainers: both containers list directories the way a container walked from a zip
+	// archive does: in no particular order, and without the directories that are merely implied by
+	// the entries below them (seed != 0)
+	ZipLikeContainers uint64
+	Twice             bool // WritePatch is called a second time on the same DiffContext (another destination); the result reported is the second one's
 }
 
 // DiffResult is what a diff run produced.
@@ -103,6 +109,10 @@ func Diff(oldDir, newDir string, comp *pwr.CompressionSettings, seams DiffSeams)
 	targetContainer := Walk(oldDir)
 	sourceContainer := Walk(newDir)
 
+	if seams.ZipLikeContainers != 0 {
+		zipLike(targetContainer, seams.ZipLikeContainers)
+		zipLike(sourceContainer, seams.ZipLikeContainers+1)
+	}
 	targetSig, err := pwr.ComputeSignature(ctx, targetContainer, fspool.New(targetContainer, oldDir), Quiet())
 	if err != nil {
 		res.Err = fmt.Errorf("ComputeSignature(old): %w", err)
@@ -415,3 +425,43 @@ func SigBytes(c *tlc.Container, hashes []wsync.BlockHash, comp *pwr.CompressionS
 }
 
 var _ = io.EOF
+
+// zipLike rewrites a container's directory list the way tlc.WalkZip would have produced it: map
+// order, and only directories that are not implied by something listed below them - or, half of the
+// time each, those too.
+func zipLike(c *tlc.Container, seed uint64) {
+	r := NewRng(seed)
+	// (WalkZip always lists the direct parent of a file or symlink: only directories that hold
+	// nothing but directories can be missing)
+	implied := func(p string) bool {
+		pre := p + "/"
+		for _, f := range c.Files {
+			if path.Dir(f.Path) == p {
+				return false
+			}
+		}
+		for _, f := range c.Symlinks {
+			if path.Dir(f.Path) == p {
+				return false
+			}
+		}
+		for _, f := range c.Dirs {
+			if strings.HasPrefix(f.Path, pre) {
+				return true
+			}
+		}
+		return false
+	}
+	var kept []*tlc.Dir
+	for _, d := range c.Dirs {
+		if implied(d.Path) && r.Intn(2) == 0 {
+			continue
+		}
+		kept = append(kept, d)
+	}
+	for i := len(kept) - 1; i > 0; i-- {
+		j := r.Intn(i + 1)
+		kept[i], kept[j] = kept[j], kept[i]
+	}
+	c.Dirs = kept
+}
